@@ -1,11 +1,12 @@
 import Hannibal.Driver.Parse
 import Hannibal.Driver.Accept
+import Hannibal.Driver.Monitors
 import Hannibal.Generated.Wiring
 open Hannibal Hannibal.Driver
 
 def reprLabel (l : Label) : String := (toString (repr l)).replace "\n" " "
 
-def processCase (mode : String) (header : String) (lines : List String) : IO Unit := do
+def processCase (mode : String) (pid : String) (header : String) (lines : List String) : IO Unit := do
   let c := parseCase header lines
   let mut out := s!"{header} :: "
   if !c.bad.isEmpty then
@@ -20,22 +21,27 @@ def processCase (mode : String) (header : String) (lines : List String) : IO Uni
         out := out ++ "\n  witness: " ++ " ; ".intercalate (wit.map reprLabel) ++ "\n"
     | .rejected k l f =>
       out := out ++ s!"actor={sp.a} accept=rejected@{k}:{reprLabel l}:frontier={f} "
+    match runMonitor pid sp.cfg ls with
+    | some none => out := out ++ s!"monitor=ok "
+    | some (some k) => out := out ++ s!"monitor=violation@{k}:{reprLabel (ls.getD k (.quiescent []))} "
+    | none => pure ()
   IO.println out
 
-partial def loop (mode : String) (h : IO.FS.Stream) (header : Option String) (acc : Array String) : IO Unit := do
+partial def loop (mode : String) (pid : String) (h : IO.FS.Stream) (header : Option String) (acc : Array String) : IO Unit := do
   let line ← h.getLine
   if line.isEmpty then return ()
   let line := String.ofList (line.toList.filter (fun c => c != '\n' && c != '\r'))
   if line.startsWith "case " then
-    loop mode h (some line) #[]
+    loop mode pid h (some line) #[]
   else if line == "end" then
     match header with
-    | some hd => processCase mode hd acc.toList
+    | some hd => processCase mode pid hd acc.toList
     | none => pure ()
-    loop mode h none #[]
+    loop mode pid h none #[]
   else
-    loop mode h header (acc.push line)
+    loop mode pid h header (acc.push line)
 
 def main (args : List String) : IO Unit := do
   let mode := args.headD "accept"
-  loop mode (← IO.getStdin) none #[]
+  let pid := (args.drop 1).headD "-"
+  loop mode pid (← IO.getStdin) none #[]
